@@ -149,7 +149,7 @@ impl Drop for Client {
         // semaphore.
         self.limit_connections.add_permits(1);
         #[cfg(memcrs_verif)]
-        crate::verif::emit("client.exit", 0, self.addr.port() as u64);
+        crate::verif::emit("client.exit", 0, self.stream.verif_peer_port());
     }
 }
 
